@@ -595,6 +595,12 @@ func c4Base(rng *rand.Rand, tee1 int) *world.Spec {
 	tee := s.Quote.Body.TeeTcbSvn
 	tee[0] = byte(1 + rng.IntN(250))
 	tee[1] = byte(tee1)
+	if tee1 != 0 {
+		// the module version is spelled as two lower-case hex digits in the identity id: versions whose hex, decimal and
+		// upper-case spellings differ, and the extremes
+		vs := []byte{1, 2, 9, 0x0a, 0x0f, 0x10, 0x1f, 0x63, 0x64, 0x7e, 0xa0, 0xab, 0xfe, 0xff}
+		tee[1] = vs[rng.IntN(len(vs))]
+	}
 	for i := 2; i < 16; i++ {
 		tee[i] = byte(1 + rng.IntN(253))
 	}
@@ -643,6 +649,17 @@ func c4Concretise(rng *rand.Rand, a *c4Abs) *world.Spec {
 	decoy := world.ModIdentity{ID: fmt.Sprintf("TDX_%02x", int(tee[1])+0x40), Levels: []world.ModLevel{{Isvsvn: 0, Status: "UpToDate"}}}
 	decoy2 := world.ModIdentity{ID: "TDX_7f", Levels: []world.ModLevel{{Isvsvn: 0, Status: "Revoked"}}}
 	ids := []world.ModIdentity{decoy2}
+	// other spellings of the same version number name other identities (decimal, upper-case hex, unpadded); they carry the
+	// opposite of what the right identity says
+	flipAll := mk(a.mod, true)
+	if len(flipAll) == 0 {
+		flipAll = []world.ModLevel{{Isvsvn: 0, Status: "UpToDate"}}
+	}
+	for _, alt := range []string{fmt.Sprintf("TDX_%02d", tee[1]), fmt.Sprintf("TDX_%02X", tee[1]), fmt.Sprintf("TDX_%x", tee[1]), fmt.Sprintf("tdx_%02x", tee[1])} {
+		if alt != modID && rng.IntN(2) == 0 {
+			ids = append(ids, world.ModIdentity{ID: alt, Levels: flipAll})
+		}
+	}
 	switch a.modKind {
 	case "present":
 		ids = append(ids, world.ModIdentity{ID: modID, Levels: mk(a.mod, false)}, decoy)
